@@ -123,6 +123,18 @@ def run(R):
         if cons:
             problems.append(("continues-reading", "after an interrupt control can still reach %s (further input is consumed)"
                              % short(cons[0].name)))
+        # loading the joined table polls the same flag and returns quietly when it is cleared: no line may be executed after the
+        # load without the flag having been sampled in between
+        for jc in L.calls_reaching(f, r"ExecutionEngine::execute_joined_table$"):
+            tgt = f.blocks[jc.bb]["term"].get("target")
+            if tgt is None:
+                continue
+            unsampled = f.reachable_from(tgt, avoid={ld.bb})
+            hit = [c for c in L.calls_reaching(f, L.ENGINE_EXEC) + L.calls_reaching(f, L.PRINT) if c.bb in unsampled and c.bb in lp.body]
+            if hit:
+                problems.append(("load-then-execute", "after the joined table is loaded (which returns quietly, half loaded, on an interrupt) "
+                                 "%s of a line is reached without sampling the flag again: an interrupted query consumes one more line and "
+                                 "joins it against a partial table" % short(hit[0].name).split("::")[-1]))
         if problems:
             for k, msg in problems:
                 R.violation("C19.sample", sn + "|" + k, "%s: %s" % (f.path, msg), [ld.loc()])
